@@ -159,14 +159,16 @@ Proof.
 Qed.
 
 (* ------------------------------------------------------------------ writes at the current address *)
-Lemma write_stmt_cur dbg st s f l c data k1 k2 p st' : active st = Active s -> SegInv (output st) s -> 0 < mlen data -> blen s < s_max s ->
-  write_stmt dbg st f l c (curr_addr s) data k1 k2 p = Ret None st' ->
+Lemma write_stmt_cur dbg st s f l c a data k1 k2 p st' : active st = Active s -> SegInv (output st) s -> 0 < mlen data -> blen s < s_max s ->
+  a = s_base s + blen s ->
+  write_stmt dbg st f l c a data k1 k2 p = Ret None st' ->
   blen s + mlen data <= s_max s /\ st' = set_active st (Active (set_buf s (s_buf s ++ data))).
 Proof.
-  intros EA HI Hpos Hlt HW. destruct (N.le_gt_cases (blen s + mlen data) (s_max s)) as [Hc|Hc].
+  intros EA HI Hpos Hlt -> HW. assert (Hcur : curr_addr s = s_base s + blen s) by (eapply curr_addr_exact; eauto).
+  rewrite <- Hcur in HW.
+  destruct (N.le_gt_cases (blen s + mlen data) (s_max s)) as [Hc|Hc].
   - rewrite (write_stmt_append dbg st s f l c data k1 k2 p EA HI Hpos Hc) in HW. inversion HW. auto.
   - exfalso. unfold write_stmt in HW. rewrite EA in HW.
-    assert (Hcur : curr_addr s = s_base s + blen s) by (eapply curr_addr_exact; eauto).
     rewrite (covers_spec dbg (output st) s _ HI), Hcur in HW.
     replace (s_base s + blen s - s_base s) with (blen s) in HW by lia.
     destruct (s_base s <=? s_base s + blen s) eqn:E1; [|lia]. cbn [andb] in HW.
@@ -300,27 +302,29 @@ Section Step.
   Qed.
 
   (* ---------------- .dstr / .dhex ---------------- *)
-  Lemma bytes_sim st cur ek items line col d args st' s' bs0 :
-    Sim E st cur ek (gdict E items) -> dir_bytes dbg fs st line col d args = Ret None st' -> (d = DStr \/ d = DHex) ->
-    (forall v, args = [AStr v] -> (d = DStr -> bs0 = Some v) /\ (d = DHex -> bs0 = hex_pairs v None)) ->
-    (match args with
-     | [AStr v] => match bs0 with Some b => place (mkP1 cur ek items) (N.of_nat (List.length b)) (IBytes b) | None => None end
-     | _ => None end) = Some s' ->
+  Lemma bytes_sim st cur ek items line col d args st' s' :
+    Sim E st cur ek (gdict E items) -> dir_bytes dbg fs st line col d args = Ret None st' ->
+    (d = DStr /\ (match args with [AStr v] => place (mkP1 cur ek items) (N.of_nat (List.length v)) (IBytes v) | _ => None end) = Some s') \/
+    (d = DHex /\ (match args with
+                  | [AStr v] => match hex_pairs v None with Some b => place (mkP1 cur ek items) (N.of_nat (List.length b)) (IBytes b) | None => None end
+                  | _ => None end) = Some s') ->
     Sim E st' (p_cur s') (p_env s') (gdict E (p_items s')).
   Proof.
-    intros (ts & ELT & H) HS Hd Hb HP. pose proof H as [R T V C Er Gt A D L P W].
-    destruct args as [|a [|a2 r]]; try dh; destruct a; try dh.
-    destruct (Hb s eq_refl) as (B1 & B2).
-    destruct bs0 as [b|]; [|dh]. unfold place in HP. cbn [p_cur p_env p_items] in HP.
+    intros (ts & ELT & H) HS Hd. pose proof H as [R T V C Er Gt A D L P W].
+    assert (exists s b, args = [AStr s] /\ place (mkP1 cur ek items) (N.of_nat (List.length b)) (IBytes b) = Some s' /\
+              ((d = DStr /\ b = s) \/ (d = DHex /\ hex_pairs s None = Some b))) as (s & b & -> & HP & Hb).
+    { destruct Hd as [(-> & HP)|(-> & HP)]; (destruct args as [|a [|a2 r]]; try dh; destruct a; try dh).
+      - exists s, s. auto.
+      - destruct (hex_pairs s None) as [b|] eqn:Hx; [|dh]. exists s, b. auto. }
+    unfold place in HP. cbn [p_cur p_env p_items] in HP.
     destruct cur as [c|]; [|dh]. destruct (c + N.of_nat (List.length b) <=? 4294967296); [|dh].
     inversion HP; subst s'. cbn [p_cur p_env p_items gdict pass2_item].
     destruct C as (sg & EA & HI & Ea).
     unfold dir_bytes in HS. rewrite EA in HS. cbn [arity_check List.length Nat.eqb] in HS.
     assert (HW : seg_update st line col (seg_write dbg sg b) = Ret None st').
-    { destruct Hd as [-> | ->].
-      - specialize (B1 eq_refl). inversion B1; subst. exact HS.
-      - specialize (B2 eq_refl). destruct (hex_decode s None []) as [bytes| |] eqn:HD; try dh.
-        apply hex_agree in HD. rewrite HD in B2. inversion B2; subst. exact HS. }
+    { destruct Hb as [(-> & ->)|(-> & Hx)]; [exact HS|].
+      destruct (hex_decode s None []) as [bytes| |] eqn:HD; try dh.
+      apply hex_agree in HD. rewrite HD in Hx. inversion Hx; subst. exact HS. }
     destruct (N.le_gt_cases (blen sg + mlen b) (s_max sg)) as [Hc|Hc].
     - destruct (write_ok dbg (output st) sg b HI Hc) as (WO & _). rewrite WO in HW. cbn [seg_update] in HW. inversion HW; subst st'.
       exists ts. split; [exact ELT|]. apply (sim_append E st c ek (gdict E items) ts sg b b None H EA Hc eq_refl eq_refl).
@@ -438,9 +442,8 @@ Section Step.
       cbn [CtxModel.bind] in HS. unfold write_instr in HS. cbn [ai_instr ai_file ai_line ai_col ai_addr] in HS.
       pose proof (assemble_args_mono _ _ true false _ _ _ _ _ (instr_ev_le E ek st tbl p ps EL EP TE V) AM) as AM'.
       rewrite AM' in AF. inversion AF; subst iF sF. rewrite EF in HS.
-      rewrite Ea, <- (curr_addr_exact _ _ HI) in HS by lia.
       assert (Hpos : 0 < mlen bF) by (unfold mlen; rewrite LF; destruct i; cbn; lia).
-      destruct (write_stmt_cur dbg st sg _ _ _ _ _ _ _ _ EA HI Hpos Hlt HS) as (Hc & ->).
+      destruct (write_stmt_cur dbg st sg _ _ _ _ _ _ _ _ _ EA HI Hpos Hlt Ea HS) as (Hc & ->).
       exists ts. split; [exact ELT|].
       pose proof (sim_append E st c ek (gdict E items) ts sg bF bF None H EA Hc eq_refl eq_refl) as SA.
       replace (mlen bF) with sz in SA by (unfold mlen; rewrite LF; congruence). exact SA.
@@ -448,11 +451,10 @@ Section Step.
       cbn [CtxModel.bind] in HS. unfold CtxModel.bind at 1 in HS. unfold write_instr in HS. cbn [ai_instr ai_file ai_line ai_col ai_addr] in HS.
       destruct (enc_bytes (partial_instr t a1) 4) as [nP bP| |] eqn:EPt; try dh.
       pose proof (enc_bytes_size _ _ _ EPt) as (LP & _). rewrite partial_isz in LP.
-      rewrite Ea, <- (curr_addr_exact _ _ HI) in HS by lia.
-      destruct (write_stmt dbg st (curr_name st) line col (curr_addr sg) (padding nP) KInstrSegOverflow KInstrSegWrite P_put_assert_instr) as [wr0 st2| |] eqn:WS; try dh.
+      destruct (write_stmt dbg st (curr_name st) line col c (padding nP) KInstrSegOverflow KInstrSegWrite P_put_assert_instr) as [wr0 st2| |] eqn:WS; try dh.
       destruct wr0; [dh|].
       assert (Hpos : 0 < mlen (padding nP)) by (rewrite len_padding, LP; destruct t; cbn; lia).
-      destruct (write_stmt_cur dbg st sg _ _ _ _ _ _ _ _ EA HI Hpos Hlt WS) as (Hc & ->).
+      destruct (write_stmt_cur dbg st sg _ _ _ _ _ _ _ _ _ EA HI Hpos Hlt Ea WS) as (Hc & ->).
       rewrite len_padding in Hc.
       unfold add_task in HS. cbn [local_tasks set_active] in HS. rewrite ELT in HS. cbn [CtxModel.bind] in HS.
       inversion HS; subst st'. eexists. split; [reflexivity|].
@@ -479,3 +481,32 @@ Section Step.
     - dh.
   Qed.
 End Step.
+
+(* ------------------------------------------------------------------ one statement *)
+Lemma sim_step dbg fs inc E st cur ek items e st' s' :
+  Sim E st cur ek (gdict E items) -> stmt_ok E ek (e_val e) ->
+  step dbg fs inc st e = Ret None st' -> errors st' = [] ->
+  pass1_step fs (mkP1 cur ek items) (e_val e) = Some s' ->
+  env_le (p_env s') E -> (forall a it, In (a, it) (p_items s') -> pass2_item E a it <> None) ->
+  Sim E st' (p_cur s') (p_env s') (gdict E (p_items s')).
+Proof.
+  intros HSim OK HS HZ HP HE H2. destruct e as [line col ev]. cbn [e_val] in *. destruct ev as [name|name args|name args].
+  - eapply label_sim; eauto.
+  - unfold step in HS. cbn [e_val e_line e_col] in HS. unfold process_directive in HS.
+    cbn [stmt_ok] in OK. destruct (dir_of name) as [d|] eqn:Ed; [|dh].
+    unfold pass1_step, dname in HP. cbn [p_env p_cur] in HP. unfold dir_of, CtxModel.is, AsmStmtModel.is in Ed.
+    repeat match type of Ed with (if ?c then _ else _) = _ => destruct c eqn:? end; try discriminate Ed; inversion Ed; subst d;
+      try (exfalso; apply OK; reflexivity); try dh.
+    + eapply addr_sim; eauto.
+    + eapply align_sim; eauto.
+    + eapply const_sim; eauto.
+    + eapply data_sim; eauto.
+    + eapply data_sim; eauto.
+    + eapply data_sim; eauto.
+    + destruct (AsmStmtModel.str_eqb name (bytes_of_string "dstr")) eqn:K.
+      { exfalso. assert (X : bytes_of_string "dhex" = bytes_of_string "dstr") by (eapply str_clash; eauto). vm_compute in X. discriminate X. }
+      eapply bytes_sim; eauto.
+    + eapply bytes_sim; eauto.
+  - unfold step in HS. cbn [e_val e_line e_col] in HS. destruct (active st) eqn:EA; [dh|].
+    cbn [pass1_step] in HP. eapply instr_sim; eauto.
+Qed.
